@@ -327,6 +327,25 @@ impl Context {
         Ok(())
     }
 
+    /// skip the tasks that are still open beneath the task
+    pub fn skip_tasks_beneath(&self, task: &Arc<Task>) -> Result<()> {
+        for other in self.proc.tasks() {
+            if other.state().is_completed() {
+                continue;
+            }
+            let mut parent = other.parent();
+            while let Some(p) = parent {
+                if p.id == task.id {
+                    other.set_state(TaskState::Skipped);
+                    self.emit_task(&other)?;
+                    break;
+                }
+                parent = p.parent();
+            }
+        }
+        Ok(())
+    }
+
     pub fn abort_task(&self, task: &Arc<Task>) -> Result<()> {
         // abort all task's acts
         for task in task.siblings().iter() {
